@@ -1771,3 +1771,9 @@ M("C18-benign-exponent-digits-by-division", "C18", "src/dtoolbase/pdtoa.cxx",
   "    K %= 100;\n    const char* d = cDigitsLut + K * 2;\n    *buffer++ = d[0];\n    *buffer++ = d[1];\n  }\n  else if (K >= 10) {",
   "    K %= 100;\n    *buffer++ = '0' + static_cast<char>(K / 10);\n    *buffer++ = '0' + static_cast<char>(K % 10);\n  }\n  else if (K >= 10) {",
   benign=True)
+
+# ---------------------------------------------------------------- R15.22 (F-C15r)
+M("C15-typedef-array-not-peeled", "C15", "src/interrogate/interfaceMakerPythonNative.cxx",
+  "        // The array or pointer may be named through a typedef\n        // (is_pointer_to_simple() looks through those, too).\n        while (unwrap->get_subtype() == CPPDeclaration::ST_typedef) {\n          unwrap = unwrap->as_typedef_type()->_type;\n        }\n",
+  "",
+  expect="R15.22|write_function_instance|unwrap.as_array_type()")
